@@ -176,7 +176,7 @@ func flowAdapter() *adapter {
 				ControlBehavior:        flow.ControlBehavior(rapid.SampledFrom([]int{0, 0, 0, 1}).Draw(t, "cb")),
 				TokenCalculateStrategy: flow.TokenCalculateStrategy(rapid.SampledFrom([]int{0, 0, 0, 1, 2}).Draw(t, "tcs")),
 				MaxQueueingTimeMs:      uint32(rapid.SampledFrom([]int{0, 100}).Draw(t, "q")),
-				StatIntervalInMs:       uint32(rapid.SampledFrom([]int{0, 0, 1000, 3000, 700}).Draw(t, "iv")),
+				StatIntervalInMs:       uint32(rapid.SampledFrom([]int{0, 0, 1000, 3000, 700, 2000, 500, 5000}).Draw(t, "iv")),
 				WarmUpPeriodSec:        uint32(rapid.IntRange(1, 3).Draw(t, "wp")), WarmUpColdFactor: uint32(rapid.SampledFrom([]int{0, 3, 3, 2}).Draw(t, "wc"))}
 			if rapid.IntRange(0, 4).Draw(t, "assoc") == 0 {
 				r.RelationStrategy, r.RefResource = flow.AssociatedResource, "b"
